@@ -470,11 +470,18 @@ func c35RunCase(r *verifrt.Run, env *c35Env, c *c35Case) {
 	if recDone != nil {
 		<-recDone
 	}
+	// delivered = a delivery attempt for this message reached a target (the local
+	// survivor's Receive or the remoting client)
 	delivered := func() int64 {
-		if v, ok := env.rem.delivered.Load(c.MsgID); ok {
-			return v.(*atomic.Int64).Load()
+		c.mu.Lock()
+		defer c.mu.Unlock()
+		var k int64
+		for _, d := range c.deliveries {
+			if d.MsgID == c.MsgID {
+				k++
+			}
 		}
-		return 0
+		return k
 	}
 	if err == nil && delivered() == 0 {
 		// a local Tell is handled asynchronously by the target's turn
